@@ -97,6 +97,30 @@ def repo_xyz():
     return out
 
 
+def sn2_triple():
+    """synthetic F- + CH3Cl -> FCH3 + Cl- : reactant, product and trigonal-bipyramidal transition state over the atoms
+    C0 H1 H2 H3 F4 Cl5 (the centre has five neighbours only in the union of reactant and product bonds)"""
+    els = ["C", "H", "H", "H", "F", "Cl"]
+    ang = [0.0, 120.0, 240.0]
+
+    def hs(z, r):
+        return [np.array([r * np.cos(np.deg2rad(a)), r * np.sin(np.deg2rad(a)), z]) for a in ang]
+
+    R = np.array([np.zeros(3)] + hs(0.364, 1.028) + [np.array([0, 0, 3.3]), np.array([0, 0, -1.78])])
+    P = np.array([np.zeros(3)] + hs(-0.364, 1.028) + [np.array([0, 0, 1.36]), np.array([0, 0, -3.5])])
+    T = np.array([np.zeros(3)] + hs(0.02, 1.07) + [np.array([0, 0, 1.95]), np.array([0, 0, -2.35])])
+    return (els, R), (els, P), (els, T)
+
+
+def robustly_nonplanar(points, threshold=1.0, margin=0.05):
+    """some 4-subset has all four apex-to-plane distances above the threshold: every evaluation order says 'not planar'"""
+    for q in itertools.combinations(range(len(points)), 4):
+        ds = apex_distances([points[i] for i in q])
+        if all(d is not None and d > threshold + margin for d in ds):
+            return True
+    return False
+
+
 SMILES = ["C[C@H](F)Cl", "C[C@@H](O)C(=O)O", "F/C=C/Cl", "F/C=C\\Cl", "C1CC1", "c1ccccc1", "CC(=O)N", "C[C@H](N)C(=O)O",
           "O=C=O", "CC#N", "C[C@H]1CC[C@@H](C)CC1", "CS(=O)C", "OC[C@H](O)C=O", "C/C=C/C=C/C", "c1ccncc1", "C1=CCCCC1"]
 
